@@ -5,16 +5,19 @@
 (* big-endian packing), descriptions are well placed, and each bus holds    *)
 (* exactly its messages.                                                    *)
 EXTENDS DbcGen, IOUtils
-VARIABLES stage, S, v
-vars == <<stage, S, v>>
+VARIABLES stage, S, mi, v
+vars == <<stage, S, mi, v>>
 EmitOn == IOEnv.DBC_EMIT = "1"
 
-Init == stage = 0 /\ S = <<>> /\ v = <<>>
-Next == \/ stage = 0 /\ stage' = 1 /\ S' \in DbcSchemas /\ v' = <<>>
-        \/ stage = 1 /\ stage' = 2 /\ S' = S /\ v' \in Vals(S, St(S.impls[1].type), 1)
+Init == stage = 0 /\ S = <<>> /\ mi = 1 /\ v = <<>>
+(* the message under test: the first CAN binding, and every further binding of the SAME struct *)
+Next == \/ stage = 0 /\ stage' = 1 /\ S' \in DbcSchemas /\ v' = <<>> /\ mi' = 1
+        \/ /\ stage = 1 /\ stage' = 2 /\ S' = S
+           /\ mi' \in {k \in 1..Len(S.impls) : S.impls[k].protocol = "can" /\ S.impls[k].type = S.impls[1].type}
+           /\ v' \in Vals(S, St(S.impls[1].type), 1)
 Spec == Init /\ [][Next]_vars
 
-Impl1 == S.impls[1]
+Impl1 == S.impls[mi]
 Msg1  == DbcMessage(S, Impl1)
 FrameBits == PackBits(S, Impl1, v)
 Expected ==  \* what decoding through the DBC must give: every present leaf with its value
